@@ -114,7 +114,7 @@ theorem C19_field (f : FieldInfo) (k : PrimK)
 
 /-- the float32 row: every finite float32 – and both infinities, both zeros, every subnormal – is widened to
 float64 and narrowed back without any change of its bit pattern (all 2^32 patterns except NaNs).
-Depends on the `bv_decide` axiom of `F.narrow_widen` (declared in the evidence). -/
+`F.narrow_widen` is kernel-checked (`Proofs/FloatRTKernel.lean`): no axiom beyond the three standard ones. -/
 theorem C19_float32 (x : BitVec 32) (h : F.isNaN32 x = false) :
     ∃ c, conv .f32 .f64 (.f32 x) = some c ∧ conv .f64 .f32 c = some (.f32 x) := by
   refine ⟨.f64 (F.widen64 x), rfl, ?_⟩
